@@ -14,8 +14,9 @@ RULE = ("part i: random models of the shape aldy builds (2-8 binaries, 1-5 free 
         "ordering, exclusions, products through model.prod, abssum objective + non-negative penalties, gap in {0,0.1,0.5}, names with "
         "the characters escape_name rewrites and duplicates) built through aldy.lpinterface.model(..,'cbc') and compared with exhaustive "
         "enumeration; part ii (exhaustive): prod of 1-4 factors over all factor assignments, abssum over all sign patterns of 1-4 terms; "
-        "part iii: every model aldy builds for drawn structure / major / minor problems on the toy gene is audited with SCIP and HiGHS on "
-        "the exported model and re-solved after exhaustion; non-trivial = >= 2 feasible points within the gap, or a superset relation among "
+        "part iii: every model aldy builds for drawn structure / major / minor problems on the toy gene, and while generated cases of the "
+        "C02 / C03 / C04 checks run (generated databases, CYP2A6, GSTM1), is audited with SCIP and HiGHS on the exported model and re-solved "
+        "after exhaustion; non-trivial = >= 2 feasible points within the gap, or a superset relation among "
         "feasible points, or (iii) a model with >= 20 variables; distinct = case JSON")
 ASSUMPTIONS = ["objective comparisons at 1e-4; candidates within 2e-4 of the gap bound are not judged",
                "SCIP and HiGHS (OR-Tools back ends) are the independent solvers; a defect shared by CBC, SCIP and HiGHS is out of reach",
@@ -241,8 +242,24 @@ def run_audit(case):
     return viol, stats
 
 
+def run_audit_other(case):
+    """Audit every model aldy builds while another property's generated case runs (its own verdict is ignored here)."""
+    from lib import runner
+
+    mod = runner.load_mod(case["module"])
+    findings = []
+    stats = collections.Counter()
+    with lprecorder.audit(findings, stats, heavy=True):
+        mod.run_case(case["case"])
+    viol = [V("audit:" + f["clause"], **{k: v for k, v in f.items() if k != "clause"}) for f in findings]
+    return viol, stats
+
+
 def run_case(case):
     kind = case["kind"]
+    if kind == "audit2":
+        viol, stats = run_audit_other(case)
+        return Result(viol, [f"audit2:{case['module']}"], stats["models>=20vars"] > 0, info=dict(stats))
     if kind == "lp":
         viol, within, extra = run_lp(case)
         labels = [f"gap:{case['gap']}", f"nb:{case['nb']}", f"within:{min(within, 5)}"] + extra
@@ -283,7 +300,14 @@ def strategy(tier):
     }))
     audit = st.fixed_dictionaries({"kind": st.just("audit"), "stage": st.sampled_from(["cn", "major", "minor"]),
                                    "gap": st.sampled_from([0, 0.1, 0.3]), "seed": st.integers(0, 10 ** 6)})
-    return st.one_of(lp, lp, lp, audit)
+    from props import C02, C03, C04
+
+    def other(modname, mod, keep):
+        return mod.strategy(tier).filter(keep).map(lambda c: {"kind": "audit2", "module": modname, "case": c})
+
+    audit2 = st.one_of(other("C02", C02, lambda c: c["kind"] == "opt"), other("C03", C03, lambda c: c["kind"] == "model" and c["gene"] != "cyp2d6"),
+                       other("C04", C04, lambda c: c["kind"] == "opt"))
+    return st.sampled_from(["lp"] * 12 + ["audit"] * 2 + ["audit2"] * 2).flatmap(lambda k: {"lp": lp, "audit": audit, "audit2": audit2}[k])
 
 
 def budget(tier):
